@@ -1528,8 +1528,11 @@ func (c *Compiler) compileLiteralValue(lit ast.Literal) error {
 func (c *Compiler) compileAsyncExpr(expr *ast.AsyncExpr) error {
 	// Create a temporary compiler to compile the async body
 	bodyCompiler := &Compiler{
-		code:        make([]byte, 0),
-		symbolTable: c.symbolTable, // Share symbol table for variable access
+		code: make([]byte, 0),
+		// The block sees the enclosing names and declares its own in a scope
+		// of its own, as it does when interpreted: `$ x = ...` in a block
+		// whose parent already has an x is not a redeclaration.
+		symbolTable: c.symbolTable.EnterScope(BlockScope),
 		constants:   c.constants,
 	}
 
